@@ -9,10 +9,10 @@ RULE = ('single surfaces: planar convex 3..8-gons in random planes / windings wi
         'opposite sides, one point on the surface with the other in front / behind, both coplanar; scenes: 6 room walls (random '
         'rotation of the whole scene) plus 0-3 interior blocker quads, random centroid pairs; real _basic_visibility / scans / '
         '_rotation_matrix vs the Lean model (flags exact) and vs an independent segment/polygon test; non-trivial = every case')
-ASSUMPTIONS = ['PARTIAL: exactness of the winding-number membership test for every convex polygon (point_in_polygon) is not proved; it is tied by correspondence and checked against the independent test on the sampled configurations',
+ASSUMPTIONS = ['PARTIAL: exactness of the winding-number membership test is proved for axis-parallel rectangles in coordinate planes (walls and patches of shoebox rooms: exact half-open box incl. tolerance; windingCount_rect_ccw/_cw, pointInPolygon_axis_rect_inside/_outside) but not for every convex polygon; there it is tied by correspondence and checked against the independent test on the sampled configurations',
                'general position: cases whose decisive quantities lie within 1e-4 of a tolerance are not generated (the property itself excludes segments closer than 1 mm to edges)']
 EXPLANATION = ('PROVED: case analysis of _basic_visibility over an abstract membership test (blocked / seen from behind / coplanar), symmetry in the two points, the scans are the conjunction over all surfaces, '
-               'the projection point is the same for both directions, translation invariance. MEASURED/tied: membership test and whole kernel against an independent exact-geometry oracle.')
+               'the projection point is the same for both directions, translation invariance, exact membership test for axis-parallel rectangles. MEASURED/tied: membership test and whole kernel against an independent exact-geometry oracle.')
 
 
 def inside_convex(P, n, x, margin=1e-3):
@@ -104,6 +104,73 @@ def corr_single(ctx, n):
         ctx.cmp.tag('corr:_basic_visibility', got, line.split(' ')[1] == '1')
 
 
+def corr_membership(ctx, n):
+    """`_point_in_polygon` on axis-parallel rectangles in coordinate planes (the walls and patches of
+    shoebox rooms): the theorems `pointInPolygon_axis_rect_inside/_outside` and (for normal +z,
+    where the rotation is the identity) the exact half-open box of `windingCount_rect_ccw/_cw`,
+    evaluated on the implementation, and the model's answer on the same points."""
+    common.import_repo()
+    from sparrowpy import geometry
+    eta = 1e-6
+    lines, meta = [], []
+    for _ in range(n):
+        k = int(ctx.rng.integers(0, 3))
+        neg = bool(ctx.rng.integers(0, 2))
+        if ctx.rng.random() < 0.4:
+            k, neg = 2, False
+        c = float(ctx.rng.integers(-8, 9)) / 4
+        u0 = float(ctx.rng.integers(-8, 8)) / 4
+        u1 = u0 + float(ctx.rng.integers(1, 12)) / 4
+        v0 = float(ctx.rng.integers(-8, 8)) / 4
+        v1 = v0 + float(ctx.rng.integers(1, 12)) / 4
+        s0 = int(ctx.rng.integers(0, 4))
+        rev = bool(ctx.rng.integers(0, 2))
+        corners = [(u0, v0), (u1, v0), (u1, v1), (u0, v1)]
+
+        def mk3(cc, a, b):
+            return np.array({0: [cc, a, b], 1: [b, cc, a], 2: [a, b, cc]}[k], float)
+        poly = np.array([mk3(c, *corners[(s0 + (3 * i if rev else i)) % 4]) for i in range(4)])
+        nrm = mk3(-1.0 if neg else 1.0, 0.0, 0.0)
+        tiny = 2.0 ** -30
+        cand = {
+            'interior': (ctx.rng.uniform(u0 + 1e-3, u1 - 1e-3), ctx.rng.uniform(v0 + 1e-3, v1 - 1e-3), ctx.rng.uniform(-0.9, 0.9) * eta),
+            'off-plane': (ctx.rng.uniform(u0, u1), ctx.rng.uniform(v0, v1), float(ctx.rng.choice([-1, 1])) * ctx.rng.uniform(1.5, 100) * eta),
+            'outside-u': (float(ctx.rng.choice([u0 - ctx.rng.uniform(1.5 * eta, 1.0), u1 + ctx.rng.uniform(1.5 * eta, 1.0)])), ctx.rng.uniform(v0, v1), 0.0),
+            'outside-v': (ctx.rng.uniform(u0, u1), float(ctx.rng.choice([v0 - ctx.rng.uniform(1.5 * eta, 1.0), v1 + ctx.rng.uniform(1.5 * eta, 1.0)])), 0.0),
+            'edge-u0': (u0, ctx.rng.uniform(v0 + 1e-3, v1 - 1e-3), 0.0),
+            'edge-u0-': (u0 - tiny, ctx.rng.uniform(v0 + 1e-3, v1 - 1e-3), 0.0),
+            'edge-u1': (u1, ctx.rng.uniform(v0 + 1e-3, v1 - 1e-3), 0.0),
+            'edge-u1-': (u1 - tiny, ctx.rng.uniform(v0 + 1e-3, v1 - 1e-3), 0.0),
+            'edge-v1+': (ctx.rng.uniform(u0 + 1e-3, u1 - 1e-3), v1 + 0.4 * eta, 0.0),
+            'edge-v1++': (ctx.rng.uniform(u0 + 1e-3, u1 - 1e-3), v1 + 0.6 * eta, 0.0),
+            'edge-v0-': (ctx.rng.uniform(u0 + 1e-3, u1 - 1e-3), v0 - 0.4 * eta, 0.0),
+            'edge-v0--': (ctx.rng.uniform(u0 + 1e-3, u1 - 1e-3), v0 - 0.6 * eta, 0.0),
+        }
+        for name, (pu, pv, dz) in cand.items():
+            p = mk3(c + dz, float(pu), float(pv))
+            got = bool(geometry._point_in_polygon(p.copy(), poly.copy(), nrm.copy()))
+            ctx.oracle_evals += 1
+            inp = {'point': p, 'polygon': poly, 'normal': nrm, 'case': name}
+            strict_in = abs(dz) <= eta and u0 < pu < u1 and v0 < pv < v1
+            far_out = abs(dz) > eta or pu < u0 - eta or pu > u1 + eta or pv < v0 - eta or pv > v1 + eta
+            if strict_in and not got:
+                ctx.violation('membership-interior', 'a point strictly inside an axis-parallel rectangle (within the plane tolerance) is reported outside (%s)' % name, inp, got, True)
+            if far_out and got:
+                ctx.violation('membership-outside', 'a point off the plane or outside an axis-parallel rectangle by more than the tolerance is reported inside (%s)' % name, inp, got, False)
+            if k == 2 and not neg:
+                # identity rotation: exact half-open box (x0 <= x < x1, y0 - eta/2 <= y <= y1 + eta/2)
+                ref = abs(dz) <= eta and u0 <= pu < u1 and v0 - eta / 2 <= pv <= v1 + eta / 2
+                near = min(abs(pv - (v0 - eta / 2)), abs(pv - (v1 + eta / 2))) < 1e-9 or abs(abs(dz) - eta) < 1e-12
+                if not near and got != ref:
+                    ctx.violation('membership-exact-box', 'rectangle with normal +z: membership differs from the half-open box of windingCount_rect (%s)' % name, inp, got, ref)
+            lines.append(' '.join(['basicvis', fhexs(p), fhexs(p + nrm), '4', fhexs(nrm), fhexs(poly)]))
+            meta.append(got)
+            ctx.count('membership.%s.%s' % (name, got))
+        ctx.cases += 1
+    for got, line in zip(meta, common.run_driver(lines)):
+        ctx.cmp.tag('corr:_point_in_polygon', got, line.split(' ')[2] == '1')
+
+
 def corr_rotmat(ctx, n):
     common.import_repo()
     from sparrowpy import geometry
@@ -193,6 +260,7 @@ def corr_scene(ctx):
 def run(ctx):
     corr_rotmat(ctx, 30 if ctx.tier == 'quick' else 300)
     corr_single(ctx, 150 if ctx.tier == 'quick' else 4000)
+    corr_membership(ctx, 20 if ctx.tier == 'quick' else 400)
     for _ in range(4 if ctx.tier == 'quick' else 60):
         corr_scene(ctx)
 
@@ -201,6 +269,7 @@ def oracle(ctx, budget_s=60):
     t = common.Timer()
     while t.s() < budget_s and not ctx.violations:
         corr_single(ctx, 100)
+        corr_membership(ctx, 20)
         corr_scene(ctx)
 
 
